@@ -23,17 +23,28 @@ def run_examples(prop, header, examples, nshard=None, timeout=600, per_file=300)
 
     def compile_list(tag, exs):
         path = os.path.join(d, f"cases_{tag}.v")
+        # statements may span several lines (and contain string literals with newlines): remember where each example
+        # ends so that the line of an error identifies the example
+        ends, line = [], header.count("\n") + 1
         with open(path, "w") as f:
             f.write(header + "\n")
             for name, stmt in exs:
-                one_line = " ".join(stmt.split("\n"))      # two lines per example: the failing line identifies the example
-                f.write(f"Example {name} : {one_line}.\nProof. vm_compute. reflexivity. Qed.\n")
+                text = f"Example {name} : {stmt}.\nProof. vm_compute. reflexivity. Qed.\n"
+                f.write(text)
+                line += text.count("\n")
+                ends.append(line)
+        with open(path + ".ends", "w") as g:
+            g.write(" ".join(map(str, ends)))
         try:
             p = subprocess.run(["coqc", "-noglob", "-Q", vlib.COQ, "Resolvo", path], cwd=d,
                                stdout=subprocess.PIPE, stderr=subprocess.STDOUT, text=True, timeout=timeout)
         except subprocess.TimeoutExpired:
             return None, "timeout", path
         return p.returncode == 0, p.stdout, path
+
+    def line_ends(path):
+        with open(path + ".ends") as g:
+            return [int(x) for x in g.read().split()]
 
     def find_failures(tag, exs, limit=4):
         """examples before the failing line passed; continue after it"""
@@ -53,8 +64,12 @@ def run_examples(prop, header, examples, nshard=None, timeout=600, per_file=300)
             if ok:
                 break
             m = re.search(r'line (\d+)', out)
-            hdr = header.count("\n") + 1
-            idx = max(0, min(len(exs) - 1, (int(m.group(1)) - hdr - 1) // 2)) if m else 0
+            idx = 0
+            if m:
+                ln = int(m.group(1))
+                ends = line_ends(path)
+                idx = next((i for i, e in enumerate(ends) if ln <= e), len(exs) - 1)
+                idx = max(0, min(len(exs) - 1, idx))
             fails.append((exs[idx][0], out[-800:]))
             exs = exs[idx + 1:]
             k += 1
